@@ -18,6 +18,24 @@ CHECKS = {
                      "be exit or a documented trap with its message -- never a signal, runtime panic or compiler crash.",
                 note="programs using time, randomness, threads, files/sockets are excluded by rule (listed count); runs that exceed the time "
                      "limit on both generators are listed, not judged; arm64 output is not executable here"),
+    "C03": dict(level="fault_enumeration", engine="progspace", design="5/C03",
+                technique="bounded-exhaustive enumeration executed on real executables: (a) every object graph of n nodes x root subset x "
+                          "collection plan, generated in-language per carrier x root mode x generator x collector x run-time configuration; "
+                          "(b) fault-point enumeration: a forced minor/full collection injected before EVERY allocation (and every pair, for "
+                          "small programs) through a cfg-gated hook; (c) corpus x configuration matrix; (d) reclamation runs",
+                text="A Dora program enumerates every graph of n<=2 (3 in parts; all 4096 in thorough) nodes with two reference slots x every "
+                     "non-empty root subset x collection plans (none/minor/full after each build step; all 3^(n+2) plans or four), for seven "
+                     "carriers (class fields, arrays, nested structs/tuples, enum payloads, Vec+String, lambda environments, trait objects) x "
+                     "roots in locals / an array / globals, builds it with the planned collections interleaved, promotes survivors, makes an "
+                     "old node point to a fresh young one, and verifies reachability, edges, payloads and identity after every phase; counts "
+                     "and checksum are recomputed independently in Python. Run for both generators x {copy, sweep, swiper, zero} x flags "
+                     "(gc-stress, gc-stress-minor, TLAB off, gc-verify, workers 1/2/8, heap/young sizes) on a debug-assertion runtime "
+                     "(protected from-space) and a release runtime with the heap verifier. For allocation-heavy programs every allocation "
+                     "k (and pairs k1<k2) becomes a collection point via DORA_VERIF_GC_AT; output and status must equal the undisturbed run. "
+                     "Corpus programs agree across the collector/flag matrix; garbage-only allocation of several heaps' worth must finish.",
+                note="single-threaded programs only (multi-threaded allocation under OS scheduling cannot be enumerated: protocol-level C04/C12); "
+                     "quick tier: 9 of 21 carrier/root combinations, n=3 only under copy/sweep, 4 of 12 injection programs; a corpus run "
+                     "exceeding the time limit under a stress mode is listed as inconclusive"),
     "C04": dict(level="model_checking", engine="sched", design="5/C04",
                 technique="stateless model checking of the real runtime code with loom (DPOR, preemption-bounded for >2 threads) "
                           "through a cfg-gated synchronisation shim",
